@@ -3,7 +3,7 @@ from props.common_prog import judge_prog
 
 THEOREM_MODULES = ["Hcl.Theorems.C08", "Hcl.Tie.Ops", "Hcl.Tie.Grammar"]
 THEOREMS = {"Hcl.Theorems.C08": ["C08_accept_iff_rules", "C08_reject_iff_rule_violated", "C08_target_rule",
-                                 "C08_width_is_semantic_width", "check_eq_typeOf", "checkOpts_eq", "checkItems_eq"],
+                                 "C08_width_is_semantic_width", "C08_accepted", "assignmentsToActions_rules", "check_eq_typeOf", "checkOpts_eq", "checkItems_eq"],
             "Hcl.Tie.Ops": ["Tie.Ops.binopKind", "Tie.Ops.combineText", "Tie.Ops.maxText", "Tie.Ops.defaultFeatures",
                             "Tie.Ops.strictnessConsts"],
             "Hcl.Tie.Grammar": ["Tie.Grammar.grammarBounds"]}
